@@ -153,7 +153,10 @@ fn midpoint_dec(rng: &mut Rng) -> Option<Dec> {
 /// A number of the I-JSON domain as an exact decimal.
 pub fn gen_dec(rng: &mut Rng) -> Dec {
 	loop {
-		let d = match rng.below(16) {
+		// under the interpreter only the short classes: parsing and rendering numbers of hundreds of digits
+		// (in the library, in std and in the reference) costs minutes there
+		let class = if cfg!(miri) { [0, 1, 2, 3, 4, 5, 11, 15][rng.below(8)] } else { rng.below(16) };
+		let d = match class {
 			0..=3 => {
 				// few digits, small exponent
 				let mut s = String::new();
